@@ -105,12 +105,15 @@ def run_impl(line):
     t = line.split()
     op, a = t[0], t[1:]
     def go():
-        if op == 'threefish.enc': return hx(Threefish(unhx(a[0]), unhx(a[1])).enc(unhx(a[2])))
-        if op == 'threefish.dec': return hx(Threefish(unhx(a[0]), unhx(a[1])).dec(unhx(a[2])))
+        if op in ('threefish.enc', 'threefish.dec'):
+            from props.parts import one_object as OO   # the object has already been used for the opposite operation
+            return hx(OO.used(Threefish(unhx(a[0]), unhx(a[1])), lambda: unhx(a[2]), op[10:]))
         if op == 'threefish.rt':
             k, tw, b = unhx(a[0]), unhx(a[1]), unhx(a[2])
-            r1 = guarded(lambda: hx(Threefish(k, tw).dec(Threefish(k, tw).enc(b))))
-            r2 = guarded(lambda: hx(Threefish(k, tw).enc(Threefish(k, tw).dec(b))))
+            # ONE Threefish object per chain performs the whole sequence (both orders, repeated calls): props/parts/one_object.py
+            from props.parts import one_object as OO
+            r1 = guarded(lambda: OO.chain(Threefish(k, tw), lambda: b, 'enc'))
+            r2 = guarded(lambda: OO.chain(Threefish(k, tw), lambda: b, 'dec'))
             return r1 + ';' + r2
         if op == 'threefish.ks':
             o = Threefish(unhx(a[0]), unhx(a[1]))
